@@ -1,6 +1,6 @@
 """C01 - Assembled image is the exact LC-3 encoding of the source (structural clauses)."""
-import json, os
-from lib import tables, panics, bits
+import json, os, re
+from lib import tables, panics, bits, nf
 from lib.panics import _unwrap_var
 import C06
 
@@ -114,12 +114,9 @@ def run(ck, ctx):
         n_ok = False
         for bi, t, callee, raw in rp.calls():
             if callee == "ast::Offset::<OFF, N>::new":
-                e = _unwrap_var(rp.expr_of_operand(t["args"][0]))
-                if e[0] == "cast" and e[1] == "i16":
-                    inner = _unwrap_var(e[2])
-                    if inner[0] == "call" and (inner[1] or "").endswith("<impl u16>::wrapping_sub"):
-                        a0, a1 = repr(inner[2][0]), repr(inner[2][1])
-                        new_ok = "'addr'" in a0 and "'pc'" in a1 and "'pc'" not in a0
+                # (name independent) the operand is `(wrapping_sub(<looked-up entry>.addr, <2nd parameter = pc>) as i16)`
+                a_s = nf.arg_x(rp, t, 0, bi)
+                new_ok = re.fullmatch(r"\(wrapping_sub\(.* as Some\.0\.addr, arg2\) as i16\)", a_s) is not None and "arg2" not in a_s[:-len("arg2) as i16)")]
                 n_ok = "i16, N" in (t["func"].get("fn_args") or "")
         ck.ob("C01.3", "offset=addr-pc", new_ok and n_ok, "label operands become IOffset::<N>::new((addr - pc) as i16) of the same N", "src/asm.rs:%s" % rp.line)
         key_ok = any((c or "").endswith("<impl str>::to_uppercase") for _, _, c, _ in rp.calls())
@@ -144,8 +141,9 @@ def run(ck, ctx):
                 sh.append("extend(bytes as u16)" if ok else "extend(?)")
         shapes[k] = sorted(sh)
     want_wd = {"Orig": [], "Fill": ["push"], "Blkw": ["shift(operand)"], "Stringz": ["extend(bytes as u16)", "push"], "End": [], "External": []}
+    wd_equiv = nf.is_verified_equivalent(F, "asm::ObjectFile::new::ObjBlock::write_directive") is not None
     for k, v in sorted(want_wd.items()):
-        ck.ob("C01.4", "write_directive:" + k, shapes.get(k) == sorted(v), "write_directive(%s) appends %s (required %s, i.e. word_len words)" % (k, shapes.get(k), sorted(v)), "src/asm.rs")
+        ck.ob("C01.4", "write_directive:" + k, shapes.get(k) == sorted(v) or wd_equiv, "write_directive(%s) appends %s (required %s, i.e. word_len words)" % (k, shapes.get(k), sorted(v)), "src/asm.rs")
     # stringz terminator is the constant 0 and comes after the bytes
     sz = wd.get("Stringz", [])
     term_ok = False
@@ -153,7 +151,7 @@ def run(ck, ctx):
         pushes = [c for c in sz if c[0] == "push"]
         exts = [c for c in sz if c[0] == "extend"]
         term_ok = bool(pushes) and bool(exts) and panics.interval(pushes[0][1]) == (0, 0) and exts[0][2] <= pushes[0][2]
-    ck.ob("C01.5", "stringz:terminator", term_ok, ".stringz writes its bytes and then a 0 word", "src/asm.rs")
+    ck.ob("C01.5", "stringz:terminator", term_ok or wd_equiv, ".stringz writes its bytes and then a 0 word", "src/asm.rs")
     # fill pushes the literal value or lookup_label
     wdb = F.bodies.get("asm::ObjectFile::new::ObjBlock::write_directive")
     if wdb is not None:
@@ -162,13 +160,13 @@ def run(ck, ctx):
         ck.ob("C01.5", "fill:value-or-label", fill_lookup and fill_get, ".fill pushes the operand value or lookup_label(name)", "src/asm.rs:%s" % wdb.line)
     shb = F.bodies.get("asm::ObjectFile::new::ObjBlock::shift")
     if ck.anchor("C01.5", "ObjBlock::shift", shb):
-        r = repr([_unwrap_var(shb.expr_of_operand(t["args"][1])) for _, t, c, _ in shb.calls() if (c or "").endswith("Extend<T>>::extend")])
-        ok = "std::iter::repeat" in r and "Iterator::take" in r and "('std::option::Option', 'None')" in r and "'n'" in r
+        r = [nf.arg_x(shb, t, 1, bi) for bi, t, c, _ in shb.calls() if (c or "").endswith("Extend<T>>::extend")]
+        ok = r == ["Iterator::take(repeat(Option::None()), (arg2 as usize))"]
         ck.ob("C01.5", "blkw:uninit", ok, ".blkw appends n uninitialised (None) words", "src/asm.rs:%s" % shb.line)
     pb = F.bodies.get("asm::ObjectFile::new::ObjBlock::push")
     if ck.anchor("C01.5", "ObjBlock::push", pb):
-        r = repr([_unwrap_var(pb.expr_of_operand(t["args"][1])) for _, t, c, _ in pb.calls() if (c or "").endswith("::push")])
-        ck.ob("C01.5", "push:some", "'Some'" in r and "'data'" in r, "push appends Some(data)", "src/asm.rs:%s" % pb.line)
+        r = [nf.arg_x(pb, t, 1, bi) for bi, t, c, _ in pb.calls() if (c or "").endswith("::push")]
+        ck.ob("C01.5", "push:some", r == ["Option::Some(arg2)"], "push appends Some(data)", "src/asm.rs:%s" % pb.line)
 
     # ---- C01.6 pass 1: labels before shift, sizes from word_len / 1
     st = F.bodies.get("asm::SymbolTable::new")
@@ -176,7 +174,7 @@ def run(ck, ctx):
         adds = [(bi, t) for bi, t, c, _ in st.calls() if (c or "").endswith("SymbolTable::new::add_label")]
         shifts = [(bi, t) for bi, t, c, _ in st.calls() if (c or "").endswith("Cursor::shift")]
         ck.floor("C01.6", "add_label calls", len(adds), 2)
-        ck.floor("C01.6", "Cursor::shift calls", len(shifts), 2)
+        ck.floor("C01.6", "Cursor::shift calls", len(shifts), 1)
         lab_ok = False
         ext_ok = False
         for bi, t in adds:
@@ -189,15 +187,19 @@ def run(ck, ctx):
                 ext_ok = panics.interval(addr) == (0, 0)
         ck.ob("C01.6", "labels-before-shift", lab_ok, "statement labels are bound to cur.lc and no shift precedes add_label within an iteration", "src/asm.rs:%s" % st.line)
         ck.ob("C01.6", "external-placeholder", ext_ok, ".external binds its label to address 0 with external=true", "src/asm.rs:%s" % st.line)
+        # the advance of every shift call, name independent; one call with a per-arm value (phi) counts like two calls
         sizes = []
         for bi, t in shifts:
-            a = _unwrap_var(st.expr_of_operand(t["args"][1]))
-            if a[0] == "const":
-                sizes.append(("const", a[1]))
-            elif a[0] == "call" and (a[1] or "").endswith("word_len"):
-                sizes.append(("word_len",))
-            else:
-                sizes.append(("?", repr(a)[:80]))
+            a = nf.arg_x(st, t, 1, bi)
+            m = re.fullmatch(r"phi\{(.*)\}", a)
+            alts = [x.split(" => ", 1) for x in m.group(1).split(" | ")] if m else [["", a]]
+            for cond, v in alts:
+                if v == "1" and (not m or re.fullmatch(r"discr\(.*nucleus\) in \[0,0\]", cond)):
+                    sizes.append(("const", 1))
+                elif re.fullmatch(r"word_len\(.* as Directive\.0\)", v) and (not m or re.fullmatch(r"discr\(.*nucleus\) in \[1,1\]", cond)):
+                    sizes.append(("word_len",))
+                else:
+                    sizes.append(("?", (cond + " => " + v)[:120]))
         ck.ob("C01.6", "pass1-sizes", sorted(sizes) == [("const", 1), ("word_len",)], "pass 1 advances by %s (required: 1 per instruction, word_len per directive)" % sizes, "src/asm.rs:%s" % st.line)
     ck.include("C23", ctx, "C01.7", {"C23.1", "C23.2"}, "label addresses are looked up under one key discipline")
     ck.include("C35", ctx, "C01.8", None, "offsets stored in instructions satisfy the Offset invariant")
